@@ -253,6 +253,12 @@ def correspond(ctx, proof_ok=True):
                 continue
             seen.add(sig)
             diag = cc.show('diagnose %s' % t)
+            if not v & 2:
+                ctx.violation(sig, 'history step: model and implementation disagree after changing breakpoints/coefficients (%s); the '
+                              'specification accepts the output' % c['history']['mode'],
+                              {'kind': 'broken-correspondence', 'item': 'C08.Model.run_case (CHist)', 'call': c, 'impl_result': r['hist'],
+                               'verdict': v, 'diagnose': diag[-300:]}, False)
+                continue
             ctx.violation(sig, 'history-dependent result: after evaluating, changing breakpoints/coefficients (%s) and evaluating again on the '
                           'SAME object, the values are not those of the current knots and coefficients (%s, nord=%d)' % (
                               c['history']['mode'], c['opt']['kind'], c['nord']),
